@@ -9,6 +9,7 @@ for s in $seeds; do
     t0=$(date +%s)
     VERIF_SEED=$s ./check $c --tier $tier > $log 2>&1
     rc=$?
+    mkdir -p .work/evidence_snap; cp evidence/$c.json .work/evidence_snap/${c}_${tier}_s${s}.json 2>/dev/null
     echo "$(date +%H:%M:%S) $c seed=$s tier=$tier exit=$rc wall=$(( $(date +%s) - t0 ))s violations=$(grep -c '^VIOLATION' $log) known=$(grep -c '^KNOWN-FINDING' $log)" >> .work/logs/ms/summary.txt
   done
 done
